@@ -187,7 +187,29 @@ fn run_hist(args: &Args, oracle: Oracle, mix: Mix) -> (Report, String, bool) {
     (total, rule, false)
 }
 
+/// A `log` sink that formats every record (so that the arguments of the library's log macros are really
+/// evaluated) and throws the text away. Logging is ON at Trace level in every monitor process unless
+/// XSG_LOG=off: a log line must never change what the library does.
+struct Sink;
+impl log::Log for Sink {
+    fn enabled(&self, _: &log::Metadata) -> bool {
+        true
+    }
+    fn log(&self, record: &log::Record) {
+        use std::fmt::Write;
+        let mut s = String::new();
+        let _ = write!(s, "{}", record.args());
+        std::hint::black_box(s.len());
+    }
+    fn flush(&self) {}
+}
+static SINK: Sink = Sink;
+
 fn main() {
+    if std::env::var("XSG_LOG").map(|v| v != "off").unwrap_or(true) {
+        let _ = log::set_logger(&SINK);
+        log::set_max_level(log::LevelFilter::Trace);
+    }
     hist::install_panic_hook();
     if std::env::args().nth(1).as_deref() == Some("c07-shard") {
         let a: Vec<String> = std::env::args().skip(2).collect();
